@@ -75,7 +75,7 @@ def fixed_array(node):
 
 # pointwise transforms for EnvelopeFactory(transform=...) / envelope(transform=...): module-level, hashable
 def tf_sqrt(env):
-    return np.sqrt(env)
+    return np.sqrt(np.abs(env))     # (blackman is slightly negative at its ends)
 
 
 def tf_flip(env):
